@@ -5,7 +5,7 @@ var Values = []string{"abc", "a b", "a,b:c", "x*y", "日本語", "foo/bar/baz", 
 var IFSs = []struct {
 	V   string
 	Set bool
-}{{"", false}, {" \t\n", true}, {", ", true}, {":", true}, {"", true}}
+}{{"", false}, {" \t\n", true}, {", ", true}, {":", true}, {"", true}, {"、 ", true}}
 
 func Words(op string, value string) [][]WP {
 	switch op {
@@ -44,6 +44,8 @@ type Param struct {
 	Set   bool
 	Value string
 	Args  []string
+	Glob  bool // run with the f option off
+	Empty bool // $0 empty
 }
 
 func Params() []Param {
@@ -66,6 +68,8 @@ func Params() []Param {
 	for _, n := range []string{"#", "?", "-", "$", "!", "0"} {
 		ps = append(ps, Param{Name: n}, Param{Name: n, Args: []string{"a", "b"}})
 	}
+	// $- without any option letter and an empty $0: set but null
+	ps = append(ps, Param{Name: "-", Glob: true}, Param{Name: "0", Empty: true}, Param{Name: "v", Set: true, Value: "abc", Glob: true})
 	return ps
 }
 
@@ -88,6 +92,7 @@ func Product(f func(cs Case)) {
 								}
 								var cs Case
 								cs.Param, cs.Set, cs.Value, cs.Args = p.Name, p.Set, p.Value, p.Args
+								cs.Glob, cs.EmptyN0 = p.Glob, p.Empty
 								cs.Op, cs.Braces, cs.Word, cs.DQ, cs.NoUnset = op, br, w, dq, nu
 								cs.IFS, cs.IFSSet = ifs.V, ifs.Set
 								cs.Other = "o1 o2"
